@@ -297,6 +297,9 @@ func (g *seqGen) next() *Op {
 				// NOT_SYNC, and must go on serving the object
 				op.How = 1 + r.Intn(2)
 			}
+			if r.Chance(0.1) {
+				op.How |= 4 // also set mode, uid and gid
+			}
 			if r.Chance(0.12) {
 				ok = g.handleRef(op, false, kDIR, kREG, kLNK)
 				op.Len = 0
@@ -357,6 +360,13 @@ func (g *seqGen) next() *Op {
 			}
 		case "commit":
 			ok = g.handleRef(op, false, kREG)
+			if ok && r.Chance(0.25) {
+				// a sub-range (offset, count), inside or reaching beyond the end of the file
+				if o := g.objOfRef(op.H); o != nil && o.Size > 0 {
+					op.Off = r.Uint64n(o.Size + 1)
+					op.Len = uint64(r.Intn(3)) * r.Uint64n(o.Size+4096)
+				}
+			}
 		case "remove", "rmdir":
 			ok = g.handleRef(op, false, kDIR)
 			if ok {
